@@ -115,28 +115,45 @@ pub fn main(args: &[String]) -> ! {
     if bad > 0 { tool_error(&format!("{bad} TEXT lines did not parse")); }
     if std::env::var("VH_PANICS").is_err() { std::panic::set_hook(Box::new(|_| {})); }
     let mut rep = Report::default();
+    // every case runs in its own thread with a deadline far beyond what the unchanged code needs (the largest case takes
+    // seconds): an index that never answers is a wrong answer too, and must not turn into a tool time-out
+    let deadline = std::time::Duration::from_secs(std::env::var("VH_CASE_SECS").ok().and_then(|s| s.parse().ok()).unwrap_or(90));
     for rec in &recs {
         rep.evaluations += 1;
         inflight(rec);
-        let mut steps = 0u64;
-        let r = catch_unwind(AssertUnwindSafe(|| -> Option<Value> {
-            if rec.get("bits").is_some() {
-                check_bits::<scrunch::bit_vector::rrr::BitVector>("rrr", rec, &mut steps)
-                    .or_else(|| check_bits::<scrunch::bit_vector::sparse::BitVector>("sparse", rec, &mut steps))
-                    .or_else(|| check_bits::<scrunch::bit_vector::ReferenceBitVector>("reference", rec, &mut steps))
-            } else {
-                let mut b1 = vec![];
-                let mut b2 = vec![];
-                check_doc::<scrunch::CompressedDocument>("compressed", rec, &mut b1, &mut steps)
-                    .or_else(|| check_doc::<scrunch::ReferenceDocument>("reference", rec, &mut b2, &mut steps))
-            }
-        }));
-        rep.steps += steps;
         let key = if rec.get("bits").is_some() { json!({"bits": rec["bits"]}) } else { json!({"text": rec["text"], "starts": rec["starts"]}) };
-        match r {
-            Ok(None) => {}
-            Ok(Some(v)) => rep.violation(json!({"case": key, "mismatch": v})),
-            Err(_) => rep.violation(json!({"case": key, "mismatch": {"panic": true}})),
+        let (tx, rx) = std::sync::mpsc::channel();
+        let rec2 = rec.clone();
+        std::thread::Builder::new().stack_size(256 << 20).spawn(move || {
+            let mut steps = 0u64;
+            let r = catch_unwind(AssertUnwindSafe(|| -> Option<Value> {
+                if rec2.get("bits").is_some() {
+                    check_bits::<scrunch::bit_vector::rrr::BitVector>("rrr", &rec2, &mut steps)
+                        .or_else(|| check_bits::<scrunch::bit_vector::sparse::BitVector>("sparse", &rec2, &mut steps))
+                        .or_else(|| check_bits::<scrunch::bit_vector::ReferenceBitVector>("reference", &rec2, &mut steps))
+                } else {
+                    let mut b1 = vec![];
+                    let mut b2 = vec![];
+                    check_doc::<scrunch::CompressedDocument>("compressed", &rec2, &mut b1, &mut steps)
+                        .or_else(|| check_doc::<scrunch::ReferenceDocument>("reference", &rec2, &mut b2, &mut steps))
+                }
+            }));
+            let _ = tx.send((steps, r.map_err(|_| ())));
+        }).unwrap();
+        match rx.recv_timeout(deadline) {
+            Ok((steps, r)) => {
+                rep.steps += steps;
+                match r {
+                    Ok(None) => {}
+                    Ok(Some(v)) => rep.violation(json!({"case": key, "mismatch": v})),
+                    Err(_) => rep.violation(json!({"case": key, "mismatch": {"panic": true}})),
+                }
+            }
+            Err(_) => {
+                // the stuck thread cannot be stopped: report and leave (the remaining cases of this file are not examined)
+                rep.violation(json!({"case": key, "mismatch": {"no_answer_within_seconds": deadline.as_secs()}}));
+                break;
+            }
         }
         if rep.evaluations % 211 == 1 { rep.sample(key); }
     }
